@@ -47,13 +47,13 @@ class WorkMeter:
         real = PsiContour.refinePoint
         meter = self
 
-        def refine_point(self, p, tangent, **kw):
+        def refine_point(self, p, *args, **kw):
             meter.n += 1
             if meter.cap is not None and meter.n > meter.cap and meter.sim is not None:
                 if not meter.sim.aborted:
                     meter.sim.aborted = "WORKCAP"
                 raise SimAbort("WORKCAP")
-            return real(self, p, tangent, **kw)
+            return real(self, p, *args, **kw)
 
         # every ODE right-hand-side evaluation also counts: a task sent into a
         # never-ending solve_ivp by garbage input is bounded the same way
